@@ -7,6 +7,7 @@ Every user callable placed in a generated schema comes from the fixed library be
 from __future__ import annotations
 
 import copy
+import random
 
 import numpy as np
 import pandas as pd
@@ -47,6 +48,17 @@ class SimInt(pandas_engine.INT64):
 
     def __str__(self):
         return "SimInt"
+
+
+# ---------------------------------------------------------------------------------------------
+# a check registered through pandera.extensions: usable by name in a DataFrameModel's Config ("extras")
+# ---------------------------------------------------------------------------------------------
+from pandera import extensions as _extensions  # noqa: E402
+
+if not hasattr(pa.Check, "sim_min_rows"):
+    @_extensions.register_check_method(statistics=["min_rows"])
+    def sim_min_rows(pandas_obj, *, min_rows):
+        return len(pandas_obj) >= min_rows
 
 
 # ---------------------------------------------------------------------------------------------
@@ -200,7 +212,7 @@ def _family(dtype):
 class SpecGen:
     """Generates schema and frame specs from one PRNG stream."""
 
-    def __init__(self, rng, want_callbacks=0.5, backend=None, allow=None, deny=()):
+    def __init__(self, rng, want_callbacks=0.5, backend=None, allow=None, deny=(), force=()):
         self.rng = rng
         self.want_callbacks = want_callbacks
         self.backend = backend
@@ -216,6 +228,14 @@ class SpecGen:
                     self.feat[f] = False
         for f in deny:
             self.feat[f] = False
+        # features a caller wants to see often (e.g. everything that involves a temporary override when a schema is shared);
+        # drawn from a stream of its own so that the other draws are the same with and without `force`
+        if force:
+            r2 = random.Random(rng.getrandbits(32))
+            for f in force:
+                if f not in deny and r2.random() < 0.6:
+                    self.feat[f] = True
+        self.p_boost = 2.0 if force else 1.0
 
     def site(self, prefix):
         self.site_no += 1
@@ -319,7 +339,7 @@ class SpecGen:
             "name": name, "dtype": dtype,
             "nullable": self.feat["nullable"] and r.random() < 0.4,
             "unique": self.feat["unique"] and r.random() < 0.25,
-            "coerce": self.feat["coerce"] and r.random() < 0.4,
+            "coerce": self.feat["coerce"] and r.random() < 0.4 * self.p_boost,
             "required": not (self.feat["optional"] and r.random() < 0.3),
             "regex": regex,
             "default": None,
@@ -336,7 +356,7 @@ class SpecGen:
         r = self.rng
         if backend != "pandas":
             return None
-        if self.feat["multiindex"] and r.random() < 0.4:
+        if self.feat["multiindex"] and r.random() < 0.4 * self.p_boost:
             return {"multi": [self.index_component(f"i{k}") for k in range(2)], "coerce": r.random() < 0.2,
                     "strict": r.random() < 0.2, "ordered": r.random() < 0.8}
         if self.feat["index"] and r.random() < 0.6:
@@ -347,7 +367,7 @@ class SpecGen:
         r = self.rng
         dtype = r.choice(["int64", "str", "int64"])
         return {"name": name, "dtype": dtype, "nullable": False, "unique": r.random() < 0.3,
-                "coerce": self.feat["coerce"] and r.random() < 0.3, "checks": self.checks(dtype, "pandas", "col")}
+                "coerce": self.feat["coerce"] and r.random() < 0.3 * self.p_boost, "checks": self.checks(dtype, "pandas", "col")}
 
     def schema(self, kind=None, backend=None):
         r = self.rng
@@ -386,6 +406,9 @@ class SpecGen:
             spec["add_missing_columns"] = self.feat["add_missing"] and r.random() < 0.5
             spec["drop_invalid_rows"] = self.feat["drop_invalid_rows"] and r.random() < 0.5
             spec["name"] = r.choice([None, "S"])
+            if kind == "model" and backend == "pandas" and r.random() < 0.4:
+                # a dataframe-level check declared by name in the model's Config (pandera.extensions registered check)
+                spec["extras"] = {"sim_min_rows": {"min_rows": r.choice([0, 1, 3])}}
         elif kind == "series":
             c = self.column("ser", "pandas")
             c["regex"] = False
@@ -467,7 +490,8 @@ class SpecGen:
         r = self.rng
         for _ in range(r.choice([1, 1, 2, 3])):
             cols = fr["columns"]
-            m = r.choice(["drop_col", "extra_col", "retype", "null", "dup", "reorder", "bad_value", "rename", "index_drop", "index_retype"])
+            m = r.choice(["drop_col", "extra_col", "retype", "null", "dup", "reorder", "bad_value", "rename", "index_drop", "index_retype",
+                          "coercible", "coercible", "tz"])
             if m == "drop_col" and len(cols) > 1:
                 cols.pop(r.randrange(len(cols)))
             elif m == "extra_col":
@@ -492,6 +516,20 @@ class SpecGen:
                 r.choice(cols)["name"] = "renamed"
             elif m == "index_drop":
                 fr["index"] = None
+            elif m == "coercible":
+                # same values in another representation: conforming only if the schema coerces (makes skipped coercion visible)
+                targets = [c for c in cols if c["dtype"] in ("int64", "float64", "simint")]
+                ixs = fr["index"]
+                if ixs:
+                    targets += [lv for lv in (ixs["multi"] if "multi" in ixs else [ixs]) if lv["dtype"] == "int64"]
+                if targets:
+                    c = r.choice(targets)
+                    c["values"] = [None if v is None else str(v) for v in c["values"]]
+                    c["dtype"] = "str"
+            elif m == "tz":
+                dts = [c for c in cols if c["dtype"] == "datetime64[ns]"]
+                if dts:
+                    r.choice(dts)["tz"] = r.choice(["UTC", "US/Eastern"])
             elif m == "index_retype" and fr["index"] and "multi" not in fr["index"]:
                 fr["index"]["dtype"] = "str" if fr["index"]["dtype"] != "str" else "int64"
                 fr["index"]["values"] = self.values(fr["index"]["dtype"], n, dup=True)
@@ -637,6 +675,8 @@ def build_model(spec):
            "add_missing_columns": spec["add_missing_columns"], "drop_invalid_rows": spec["drop_invalid_rows"]}
     if spec["unique"]:
         cfg["unique"] = list(spec["unique"])
+    for k, v in (spec.get("extras") or {}).items():
+        cfg[k] = dict(v)
     ns["Config"] = type("Config", (), cfg)
     ns["__annotations__"] = ann
     _MODEL_NO[0] += 1
@@ -705,7 +745,8 @@ def _series(values, dtype, name=None, tz=None):
             return ser
     try:
         if dtype == "datetime64[ns]":
-            return pd.Series(pd.to_datetime(pd.Series(values, dtype="object")), name=name)
+            ser = pd.Series(pd.to_datetime(pd.Series(values, dtype="object")), name=name)
+            return ser.dt.tz_localize(tz) if tz else ser
         if dtype == "str":
             return pd.Series(values, dtype="object", name=name)
         if dtype in ("int64", "bool") and any(v is None for v in values):
@@ -745,7 +786,7 @@ def build_frame(fr, backend="pandas", kind="dfs", lazy=False):
     idx = _pd_index(fr.get("index"), n)
     if kind == "series":
         c = cols[0]
-        s = _series(c["values"], c["dtype"], name=c["name"])
+        s = _series(c["values"], c["dtype"], name=c["name"], tz=c.get("tz"))
         s.index = idx
         return s
     df = pd.DataFrame({k: _series(c["values"], c["dtype"], tz=c.get("tz")).array for k, c in enumerate(cols)}, index=idx)
